@@ -1,5 +1,318 @@
+// C05: sasl.Server against every kind of client byte stream and callback outcome.
 package sasl
 
-import "testing"
+import (
+	"bytes"
+	"errors"
+	"fmt"
+	"net"
+	"os"
+	"path/filepath"
+	"sync"
+	"testing"
+	"time"
+)
 
-func runC05(em *vEmitter, t *testing.T) { t.Skip("C05 driver not built yet") }
+type c05Script struct {
+	ok  bool
+	msg []byte
+	err bool
+}
+
+type c05Srv struct {
+	mu     sync.Mutex
+	calls  [][4]string
+	script c05Script                 // sequential phase
+	byUser map[string]c05Script      // concurrent phase
+}
+
+func (s *c05Srv) cb(login, password, service, realm string) (bool, string, error) {
+	s.mu.Lock()
+	s.calls = append(s.calls, [4]string{login, password, service, realm})
+	sc := s.script
+	if s.byUser != nil {
+		if x, ok := s.byUser[login]; ok {
+			sc = x
+		}
+	}
+	s.mu.Unlock()
+	if sc.err {
+		return sc.ok, "ignored", errors.New(string(sc.msg))
+	}
+	return sc.ok, string(sc.msg), nil
+}
+
+func cCb(sc c05Script) string {
+	e := "None"
+	if sc.err {
+		e = "(Some " + cField(sc.msg) + ")"
+	}
+	m := cField(sc.msg)
+	if sc.err {
+		m = cS("ignored")
+	}
+	return fmt.Sprintf("{| cb_ok := %s; cb_msg := %s; cb_err := %s |}", cB(sc.ok), m, e)
+}
+
+// one connection: write stream in chunks, optionally half-close, collect the reply
+func c05Conn(sock string, stream []byte, chunks []int, halfClose bool, wait time.Duration) (reply []byte, got bool) {
+	c, err := net.Dial("unix", sock)
+	if err != nil {
+		panic(err)
+	}
+	defer c.Close()
+	uc := c.(*net.UnixConn)
+	off := 0
+	for _, n := range chunks {
+		if off+n > len(stream) {
+			n = len(stream) - off
+		}
+		if n > 0 {
+			uc.Write(stream[off : off+n])
+			off += n
+			time.Sleep(200 * time.Microsecond)
+		}
+	}
+	if off < len(stream) {
+		uc.Write(stream[off:])
+	}
+	if halfClose {
+		uc.CloseWrite()
+	}
+	uc.SetReadDeadline(time.Now().Add(wait))
+	var buf bytes.Buffer
+	tmp := make([]byte, 70000)
+	for {
+		n, err := uc.Read(tmp)
+		buf.Write(tmp[:n])
+		if err != nil {
+			if ne, ok := err.(net.Error); ok && ne.Timeout() {
+				if buf.Len() == 0 {
+					return nil, false
+				}
+				return buf.Bytes(), true // data but no close within the wait: reported as is
+			}
+			break // EOF: server closed
+		}
+	}
+	return buf.Bytes(), true
+}
+
+func runC05(em *vEmitter, t *testing.T) {
+	r := vNewRng(vSeed())
+	dir, err := os.MkdirTemp("", "verif-c05-")
+	if err != nil {
+		t.Fatal(err)
+	}
+	defer os.RemoveAll(dir)
+	sock := filepath.Join(dir, "s.sock")
+	srv := &c05Srv{}
+	s, err := NewServer(sock, srv.cb)
+	if err != nil {
+		t.Fatal(err)
+	}
+	go s.Run()
+
+	emit := func(stream []byte, halfClose bool, sc c05Script, class string) {
+		srv.mu.Lock()
+		srv.calls = nil
+		srv.script = sc
+		srv.mu.Unlock()
+		var chunks []int
+		for k := r.intn(4); k > 0; k-- {
+			chunks = append(chunks, 1+r.intn(1+len(stream)))
+		}
+		wait := 2 * time.Second
+		if !halfClose {
+			wait = 250 * time.Millisecond
+		}
+		reply, got := c05Conn(sock, stream, chunks, halfClose, wait)
+		time.Sleep(300 * time.Microsecond)
+		srv.mu.Lock()
+		calls := append([][4]string{}, srv.calls...)
+		srv.mu.Unlock()
+		var cs []string
+		for _, c := range calls {
+			cs = append(cs, cList([]string{cS(c[0]), cS(c[1]), cS(c[2]), cS(c[3])}))
+		}
+		rep := "None"
+		gc := "None"
+		if got {
+			rep = "(Some " + cField2(reply) + ")"
+			resp := &Response{}
+			if err := resp.Decode(bytes.NewReader(reply)); err == nil {
+				gc = "(Some (" + cB(resp.Result) + ", " + cField2([]byte(resp.Message)) + "))"
+			}
+		}
+		em.emit(vCase{Prop: "C05", Kind: "conn", Class: class, Nontrivial: len(calls) > 0 || len(stream) > 2,
+			Coq: fmt.Sprintf("Conn %s %s %s %s %s %s", cField2(stream), cB(halfClose), cCb(sc), cList(cs), rep, gc),
+			Human: map[string]interface{}{"stream": vHex(truncB(stream, 300)), "streamlen": len(stream), "halfclose": halfClose,
+				"cb": fmt.Sprintf("ok=%v err=%v msglen=%d", sc.ok, sc.err, len(sc.msg)), "calls": len(calls), "replylen": len(reply), "got": got}})
+	}
+
+	okSc := c05Script{ok: true, msg: []byte("successfully authenticated")}
+	noSc := c05Script{ok: false, msg: []byte("wrong credentials")}
+	valid := func() []byte { return validRequestBytes(r) }
+
+	// (1) callback outcomes x message lengths
+	lens := []int{0, 1, 2, 252, 253, 254, 255, 300, 4096, 65532, 65533, 65534, 70000}
+	for _, l := range lens {
+		for _, ok := range []bool{true, false} {
+			for _, isErr := range []bool{false, true} {
+				msg := bytes.Repeat([]byte{'m'}, l)
+				if l > 0 && l < 300 {
+					msg = r.bytes(l)
+				}
+				emit(valid(), true, c05Script{ok: ok, msg: msg, err: isErr}, fmt.Sprintf("cb/msglen-%d", l))
+			}
+		}
+	}
+	// (2) well-formed requests, with and without half-close, trailing bytes
+	n := 60
+	if vThorough() {
+		n = 1500
+	}
+	for i := 0; i < n; i++ {
+		sc := okSc
+		if r.intn(2) == 0 {
+			sc = noSc
+		}
+		st := valid()
+		emit(st, r.intn(2) == 0, sc, "stream/valid")
+		emit(append(st, r.bytes(1+r.intn(8))...), r.intn(2) == 0, sc, "stream/trailing-bytes")
+	}
+	// (3) truncated at every byte, each terminated by half-close and abandoned
+	for k := 0; k < 3; k++ {
+		st := valid()
+		for cut := 0; cut < len(st); cut++ {
+			emit(st[:cut], true, okSc, "stream/truncated-halfclose")
+			if cut%3 == 0 || vThorough() {
+				emit(st[:cut], false, okSc, "stream/truncated-abandoned")
+			}
+		}
+	}
+	// (4) over-long and boundary fields
+	for _, l := range []int{255, 256, 257, 1000, 65535} {
+		for pos := 0; pos < 4; pos++ {
+			var b bytes.Buffer
+			for f := 0; f < 4; f++ {
+				fl := 1 + r.intn(3)
+				if f == pos {
+					fl = l
+				}
+				b.Write([]byte{byte(fl >> 8), byte(fl)})
+				b.Write(bytes.Repeat([]byte{byte('a' + f)}, fl))
+			}
+			emit(b.Bytes(), true, okSc, fmt.Sprintf("stream/field-%d", l))
+		}
+	}
+	// empty login / password
+	emit([]byte{0, 0, 0, 1, 'p', 0, 0, 0, 0}, true, okSc, "stream/empty-login")
+	emit([]byte{0, 1, 'u', 0, 0, 0, 0, 0, 0}, true, okSc, "stream/empty-password")
+	// (5) random garbage
+	ng := 150
+	if vThorough() {
+		ng = 4000
+	}
+	for i := 0; i < ng; i++ {
+		emit(r.bytes(r.intn(40)), r.intn(3) != 0, okSc, "stream/random")
+	}
+	emit(nil, true, okSc, "stream/empty")
+	emit(nil, false, okSc, "stream/empty-abandoned")
+
+	// (6) concurrent connections: every connection must get its own answer
+	for round := 0; round < 4; round++ {
+		nconn := []int{2, 8, 32, 64}[round]
+		srv.mu.Lock()
+		srv.calls = nil
+		srv.byUser = map[string]c05Script{}
+		type job struct {
+			login  string
+			stream []byte
+			sc     c05Script
+			reply  []byte
+			got    bool
+		}
+		jobs := make([]*job, nconn)
+		for i := range jobs {
+			login := fmt.Sprintf("user%d-%d", round, i)
+			sc := c05Script{ok: i%2 == 0, msg: []byte("answer for " + login)}
+			srv.byUser[login] = sc
+			var b bytes.Buffer
+			for _, f := range []string{login, "pw" + login, "svc", ""} {
+				b.Write([]byte{byte(len(f) >> 8), byte(len(f))})
+				b.WriteString(f)
+			}
+			jobs[i] = &job{login: login, stream: b.Bytes(), sc: sc}
+		}
+		srv.mu.Unlock()
+		var wg sync.WaitGroup
+		for _, j := range jobs {
+			wg.Add(1)
+			go func(j *job) {
+				defer wg.Done()
+				j.reply, j.got = c05Conn(sock, j.stream, []int{3, 5}, true, 5*time.Second)
+			}(j)
+		}
+		wg.Wait()
+		srv.mu.Lock()
+		counts := map[string]int{}
+		for _, c := range srv.calls {
+			counts[c[0]]++
+		}
+		srv.byUser = nil
+		srv.mu.Unlock()
+		for _, j := range jobs {
+			rep, gc := "None", "None"
+			viol := ""
+			if j.got {
+				rep = "(Some " + cField2(j.reply) + ")"
+				resp := &Response{}
+				if err := resp.Decode(bytes.NewReader(j.reply)); err == nil {
+					gc = "(Some (" + cB(resp.Result) + ", " + cField2([]byte(resp.Message)) + "))"
+					if resp.Result != j.sc.ok || resp.Message != string(j.sc.msg) {
+						viol = fmt.Sprintf("connection of %s received another connection's answer: %v %q", j.login, resp.Result, resp.Message)
+					}
+				}
+			}
+			var cs []string
+			for k := 0; k < counts[j.login]; k++ {
+				cs = append(cs, cList([]string{cS(j.login), cS("pw" + j.login), cS("svc"), cS("")}))
+			}
+			c := vCase{Prop: "C05", Kind: "conn", Class: fmt.Sprintf("concurrent/%d", nconn), Nontrivial: true,
+				Coq:   fmt.Sprintf("Conn %s true %s %s %s %s", cField2(j.stream), cCb(j.sc), cList(cs), rep, gc),
+				Human: map[string]interface{}{"login": j.login, "calls": counts[j.login], "got": j.got}}
+			if viol != "" {
+				c.Violation = viol
+			}
+			em.emit(c)
+		}
+	}
+}
+
+func truncB(b []byte, n int) []byte {
+	if len(b) > n {
+		return b[:n]
+	}
+	return b
+}
+
+// compact term for long uniform runs inside otherwise short data
+func cField2(b []byte) string {
+	if len(b) > 600 {
+		// find a long uniform suffix after a short head
+		for head := 0; head < 8 && head < len(b); head++ {
+			uniform := true
+			for _, x := range b[head:] {
+				if x != b[head] {
+					uniform = false
+					break
+				}
+			}
+			if uniform {
+				return "(" + cH(b[:head]) + " ++ " + cRep(b[head], len(b)-head) + ")"
+			}
+		}
+	}
+	return cH(b)
+}
